@@ -17,7 +17,9 @@ let hex l = if l = [] then "-" else String.concat "" (List.map (fun b -> Printf.
 
 let () =
   let ic = open_in Sys.argv.(1) in
-  let st = ref hinit in
+  let nofile = (fun _ -> []) in
+  let st = ref (ginit nofile) in
+  let nfiles = ref 1 in
   let ln = ref 0 in
   (try
     while true do
@@ -29,7 +31,7 @@ let () =
       let tx k = try unhex (List.nth toks k) with _ -> [] in
       let op = match toks with
         | [] -> None
-        | "history" :: _ -> st := hinit; None
+        | "history" :: _ -> st := ginit nofile; nfiles := 1; None
         | "start" :: _ -> Some OStart
         | "end" :: _ -> Some OEnd
         | "create" :: _ -> Some (OCreate (zi 1, zi 2, zi 3, zi 4, zi 5))
@@ -69,7 +71,15 @@ let () =
       match op with
       | None -> (match toks with
                  | "history" :: _ -> Printf.printf "%d history\n" !ln
-                 | "gettagref" :: _ -> let (s', r) = m_gettagref !st (zi 1) (zi 2) in st := s'; show r
+                 | "names" :: rest ->
+                   let bytes nm = List.init (String.length nm) (fun k -> z (Char.code nm.[k])) in
+                   let arr = Array.of_list (List.map bytes rest) in
+                   nfiles := Array.length arr;
+                   st := ginit (fun n -> let k = iz n in if k >= 0 && k < Array.length arr then arr.(k) else []);
+                   Printf.printf "%d skip\n" !ln
+                 | "file" :: _ -> if i 1 >= 0 && i 1 < !nfiles then begin st := gfile !st (zi 1); Printf.printf "%d ok\n" !ln end
+                                  else Printf.printf "%d fail\n" !ln
+                 | "gettagref" :: _ -> let (s', r) = g_gettagref !st (zi 1) (zi 2) in st := s'; show r
                  | "key" :: _ -> let k = aN_CREATE_KEY (zi 1) (zi 2) in
                    Printf.printf "%d ok %d %d %d\n" !ln (iz k) (iz (aN_KEY2TYPE k)) (iz (aN_KEY2REF k))
                  | "cmp" :: _ -> Printf.printf "%d ok %d\n" !ln (iz (aNIanncmp (zi 1) (zi 2)))
@@ -78,6 +88,6 @@ let () =
                  | "atype2tag" :: _ -> Printf.printf "%d ok %d\n" !ln (iz (m_atype2tag (zi 1)))
                  | "tag2atype" :: _ -> Printf.printf "%d ok %d\n" !ln (iz (m_tag2atype (zi 1)))
                  | _ -> Printf.printf "%d skip\n" !ln)
-      | Some o -> let (s', r) = mstep !st o in st := s'; show r
+      | Some o -> let (s', r) = gstep !st o in st := s'; show r
     done
   with End_of_file -> ())
